@@ -62,7 +62,8 @@ def check(run: Run) -> None:
                 v = strip_sites(f2.term_of(val))
                 dep_old = contains(v, lambda s: s == ("attr", cur, ATTR))
                 run.check(dep_old, "C16.R2", fi, n, "stored dictionary depends on the replaced node's _q_metadata", "the dictionary stored on the copied node is built from the new keys only: metadata carried by the node it replaces (set by the preceding QMetaData call) is dropped", "{**getattr(base_ast, '_q_metadata', {}), **q_metadata}", show(v))
-                dep_new = _depends_on_loop_store(q, fa, val)
+                owners_ = _metadata_loops(m, ctx, q, mdp)
+                dep_new = _depends_on_loop_store(q, fa, val, owners_[0][0] if len(owners_) == 1 else None)
                 run.check(dep_new, "C16.R2", fi, n, "stored dictionary contains the new keys", "the stored dictionary does not include the keys being set")
     run.floor("C16.R1", n_stores, 1, "_q_metadata stores")
 
@@ -85,16 +86,16 @@ def check(run: Run) -> None:
     in_fields = [c for c in dir(_ast) if isinstance(getattr(_ast, c), type) and ATTR in getattr(getattr(_ast, c), "_fields", ())]
     run.check(not in_fields, "C16.R4", q, q.node, "_q_metadata is not a _fields member of any ast class", f"_q_metadata is a field of {in_fields}")
 
-    # ---------------- R5 per-key loop
-    loops = [n for n in own_nodes(q) if isinstance(n, ast.For) and strip_sites(fa.term_of(n.iter, fa.cfg.node_of(n))) == ("app", ("attr", mdp, "items"), (), ())]
+    # ---------------- R5 per-key loop (in QMetaData or in a private helper it hands `metadata` to)
+    loops = _metadata_loops(m, ctx, q, mdp)
     run.check(len(loops) == 1, "C16.R5", q, q.node, "one loop over metadata.items()", f"{len(loops)} loops over metadata.items()")
-    for lp in loops:
+    for g_, lp in loops:
         early = [x for x in ast.walk(lp) if isinstance(x, (ast.Break, ast.Return))]
         for x in early:
-            run.fail("C16.R5", q, x, "the per-key loop can stop early: keys after this one in the same QMetaData call are silently dropped", "continue")
+            run.fail("C16.R5", g_, x, "the per-key loop can stop early: keys after this one in the same QMetaData call are silently dropped", "continue")
         if not early:
-            run.ok("C16.R5", q, "per-key loop has no break/return")
-        _check_skip_condition(run, q, fa, lp, selfp)
+            run.ok("C16.R5", g_, "per-key loop has no break/return")
+        _check_skip_condition(run, g_, ctx.analysis(g_), lp, selfp)
 
     # ---------------- R3 lookup
     lk = m.find_func("lookup_query_metadata", in_module="func_adl.ast.meta_data")
@@ -143,6 +144,33 @@ def check(run: Run) -> None:
     run.check(ok_v, "C16.R3", lk, lk.node, "search starts at the stream's own query AST", "lookup does not start from q.query_ast")
 
 
+def _metadata_loops(m, ctx, q, mdp):
+    """[(function, loop)] for loops over <metadata>.items() in QMetaData or a private helper that receives metadata"""
+    from ..lib import call_sites_of, unit
+
+    fa = ctx.analysis(q)
+    out = []
+    for g_ in unit(m, q):
+        ga = ctx.analysis(g_)
+        want = mdp
+        if g_ is not q:
+            want = None
+            for c_, call, skip in call_sites_of(m, g_):
+                if c_ is q:
+                    for p_, a in zip(g_.pos_params[skip:], call.args):
+                        if strip_sites(fa.term_of(a)) == mdp:
+                            want = ("param", p_)
+                    for k in call.keywords:
+                        if k.arg and strip_sites(fa.term_of(k.value)) == mdp:
+                            want = ("param", k.arg)
+        if want is None:
+            continue
+        for n in own_nodes(g_):
+            if isinstance(n, ast.For) and strip_sites(ga.term_of(n.iter, ga.cfg.node_of(n))) == ("app", ("attr", want, "items"), (), ()):
+                out.append((g_, n))
+    return out
+
+
 def _member_fact(fa, at_stmt, dct, key, want: bool) -> bool:
     fx = Facts(fa, at_stmt)
     for a, pol in fx.atoms:
@@ -153,15 +181,45 @@ def _member_fact(fa, at_stmt, dct, key, want: bool) -> bool:
     return False
 
 
-def _depends_on_loop_store(q, fa, val: ast.AST) -> bool:
-    """the value mentions the local dict that the per-key loop fills (q_metadata[k] = v)."""
+def _depends_on_loop_store(q, fa, val: ast.AST, loop_owner=None) -> bool:
+    """the value data-depends on the dict that the per-key loop fills (q_metadata[k] = v) - directly, through
+    temporaries, or through the result of the private helper that contains the loop and returns that dict."""
     filled = set()
     for n in own_nodes(q):
         if isinstance(n, ast.Assign):
             for tg in n.targets:
                 if isinstance(tg, ast.Subscript) and isinstance(tg.value, ast.Name):
                     filled.add(tg.value.id)
-    return any(isinstance(x, ast.Name) and x.id in filled for x in ast.walk(val))
+    helper_returns_filled = False
+    if loop_owner is not None and loop_owner is not q:
+        hf = set()
+        for n in own_nodes(loop_owner):
+            if isinstance(n, ast.Assign):
+                for tg in n.targets:
+                    if isinstance(tg, ast.Subscript) and isinstance(tg.value, ast.Name):
+                        hf.add(tg.value.id)
+        rets = [n for n in own_nodes(loop_owner) if isinstance(n, ast.Return)]
+        helper_returns_filled = bool(rets) and all(isinstance(r.value, ast.Name) and r.value.id in hf for r in rets)
+
+    def mentions(e) -> bool:
+        for x in ast.walk(e):
+            if isinstance(x, ast.Name) and x.id in filled:
+                return True
+            if helper_returns_filled and isinstance(x, ast.Call):
+                nm = x.func.id if isinstance(x.func, ast.Name) else (x.func.attr if isinstance(x.func, ast.Attribute) else None)
+                if nm == loop_owner.name:
+                    return True
+        return False
+
+    for _ in range(4):  # temporaries
+        grew = False
+        for n in own_nodes(q):
+            if isinstance(n, ast.Assign) and len(n.targets) == 1 and isinstance(n.targets[0], ast.Name) and n.targets[0].id not in filled and mentions(n.value):
+                filled.add(n.targets[0].id)
+                grew = True
+        if not grew:
+            break
+    return mentions(val)
 
 
 def _check_skip_condition(run, q, fa, lp: ast.For, selfp) -> None:
